@@ -206,23 +206,28 @@ def render_blt(e, rnd=None, plain=False):
         out[-1] += ['#', 'candidates', 'seats']
     if nick:
         out.append(['[nick'] + list(nick) + [']'] if ch(0.5) else ['[nick'] + list(nick[:-1]) + [nick[-1] + ']'])
+    # option blocks after [nick] may come in any order (a withdrawal may precede or follow the tie list ...)
+    blocks = []
     if e.get('tie'):
         toks = [cname(c) for c in e['tie']]
-        out.append(['[tie'] + toks[:-1] + [toks[-1] + ']'] if ch(0.5) else ['[tie'] + toks + [']'])
+        blocks.append([['[tie'] + toks[:-1] + [toks[-1] + ']'] if ch(0.5) else ['[tie'] + toks + [']']])
     if e.get('droop'):
-        out.append(['[droop'] + list(e['droop']) + [']'])
+        blocks.append([['[droop'] + list(e['droop']) + [']']])
     wd = e.get('withdrawn') or []
     if wd:
         if ch(0.4):
-            out.append(['[withdrawn'] + [cname(c) for c in wd] + [']'])
+            blocks.append([['[withdrawn'] + [cname(c) for c in wd] + [']']])
         elif ch(0.5):
-            for c in wd:
-                out.append(['-%d' % c])
+            blocks.append([['-%d' % c] for c in wd])
         else:
-            out.append(['-%d' % c for c in wd])
+            blocks.append([['-%d' % c for c in wd]])
     ud = e.get('undeclared') or []
     if ud:
-        out.append(['[undeclared'] + [cname(c) for c in ud] + [']'])
+        blocks.append([['[undeclared'] + [cname(c) for c in ud] + [']']])
+    if not plain and len(blocks) > 1:
+        rnd.shuffle(blocks)
+    for blk in blocks:
+        out.extend(blk)
     bid = 0
     for mult, groups in e['ballots']:
         line = []
